@@ -11,6 +11,13 @@ CHECKS = {
  'C07': ('exclusion/surplus/tie action properties of Props.tla judged by TLC on recorded traces', '7 C07'),
  'C08': ('Meek invariants of Props.tla judged by TLC on post-distribution snapshots and internal iterations', '7 C08'),
  'C09': ('status transition relation of Props.tla judged by TLC on consecutive snapshots', '7 C09'),
+ 'C03': ('statutory rule specifications (spec/Rule*.tla) model-checked; exported cases replayed into the code; recorded traces validated in lock-step (TraceCount.tla)', '7 C03'),
+ 'C10': ('SameHistory relation (Pairs.tla) judged by TLC on pairs of recorded traces of two presentations', '7 C10'),
+ 'C11': ('FinalDiff / SameByName relations (Pairs.tla) judged by TLC on renumbered and withdrawn-deleted pairs', '7 C11'),
+ 'C12': ('relational arithmetic laws (Num.tla) judged by TLC on calls recorded from Fixed and Rational', '7 C12'),
+ 'C13': ('comparison law (Num.tla) on recorded Guarded calls; SameHistory guard0/fixed and QuasiDiff guarded/rational pairs (Pairs.tla)', '7 C13'),
+ 'C14': ('printing law PrintLaw (Num.tla) judged by TLC on str() of recorded values', '7 C14'),
+ 'C17': ('SameHistory relation on perturbed-option pairs of statutory rules (Pairs.tla)', '7 C17'),
  'C18': ('record-consistency predicates of Props.tla judged by TLC on recorded traces', '7 C18'),
 }
 NA = {}
